@@ -20,22 +20,32 @@ func genC14(repo string) (string, error) {
 	}
 	opt := goast.SkelOpt{Conds: true,
 		Calls: set("GetStore", "GetStores", "checkStoreVersion", "checkStoreLabels", "MergeLabels", "NewStoreInfo", "Clone",
-			"putStoreLocked", "putStoreImpl", "SaveStore", "PutStore", "DeleteStore", "SaveStoreWeight",
+			"putStoreLocked", "putStoreImpl", "putStoreImplLocked", "SaveStore", "PutStore", "DeleteStore", "SaveStoreWeight",
 			"OfflineStore", "UpStore", "TombstoneStore", "SetLeaderWeight", "SetRegionWeight", "SetStoreLabels",
 			"SetStoreAddress", "SetStoreVersion", "GetStoreRegionCount", "GetRegionCount", "buryStore",
 			"deleteStoreLocked", "onStoreVersionChangeLocked", "OnStoreVersionChange", "NeedPersist", "SetLastPersistTime",
 			"ParseVersion", "IsCompatible", "CASClusterVersion", "IsTombstone"),
 		Assigns: set("Labels")}
-	for _, fn := range []string{"putStoreImpl", "PutStore", "UpdateStoreLabels", "checkStoreVersion", "RemoveStore", "UpStore", "buryStore",
+	for _, fn := range []string{"putStoreImpl", "putStoreImplLocked", "PutStore", "UpdateStoreLabels", "checkStoreVersion", "RemoveStore", "UpStore", "buryStore",
 		"SetStoreWeight", "putStoreLocked", "checkStores", "RemoveTombStoneRecords", "deleteStoreLocked", "HandleStoreHeartbeat",
 		"onStoreVersionChangeLocked"} {
+		if _, ferr := cl.Func("RaftCluster", fn); ferr != nil && fn == "putStoreImplLocked" {
+			// the function introduced by fix fdb55d1 is gone: let the obligations (skel_/guards_putStoreImplLocked_ok,
+			// skel_UpdateStoreLabels_ok) fail rather than the translator, so that the driver still runs and shows the replay
+			fmt.Fprintf(&o.sb, "Definition skel_%s : list ev := (* server/cluster/cluster.go: (RaftCluster).%s is ABSENT *)\n  [].\n", fn, fn)
+			continue
+		}
 		if err := o.skeleton(cl, "RaftCluster", fn, "skel_"+fn, opt); err != nil {
 			return "", err
 		}
 	}
 	// every if-condition with what its body does first (return <expr> / continue / break / ...), in source order:
 	// the skeleton above drops ifs whose body is only `continue`, and does not say what is returned
-	for _, fn := range []string{"putStoreImpl", "RemoveStore", "UpStore", "buryStore", "SetStoreWeight", "checkStores", "RemoveTombStoneRecords"} {
+	for _, fn := range []string{"putStoreImplLocked", "RemoveStore", "UpStore", "buryStore", "SetStoreWeight", "checkStores", "RemoveTombStoneRecords"} {
+		if _, ferr := cl.Func("RaftCluster", fn); ferr != nil && fn == "putStoreImplLocked" {
+			fmt.Fprintf(&o.sb, "Definition guards_%s : list (string * string) := (* (RaftCluster).%s is ABSENT *)\n  [].\n", fn, fn)
+			continue
+		}
 		if err := c14Guards(&o, cl, "RaftCluster", fn, "guards_"+fn); err != nil {
 			return "", err
 		}
